@@ -91,7 +91,13 @@ class Interp:
         self.new_refs.append(r)
         if clsname in self.registry.consts.get("ALLOC_FRESH", ()):
             self._assume_unreferenced(r, clsname)
+        # dynamic class of the new object (read by the spec builtin is_instance); objects that already existed have an
+        # unconstrained tag
+        self.heap.write("object", "__class__", TInt, r, I(self.class_id(clsname)))
         return V(TRef(clsname), r)
+
+    def class_id(self, clsname):
+        return sorted(self.index.classes).index(clsname)
 
     def _assume_unreferenced(self, r, clsname):
         """Allocation freshness, opt-in per class (sidecar: R.consts['ALLOC_FRESH'] = {class names}).
@@ -649,6 +655,8 @@ class Interp:
             return r if isinstance(op, ast.In) else z3.Not(r)
         if isinstance(a, PyObj) or isinstance(b, PyObj):
             raise Unsupported("comparison of python objects")
+        if isinstance(op, (ast.Eq, ast.NotEq)):
+            self.note_bytes_literal(a, b)
         if isinstance(op, ast.Eq):
             return sym.equal(a, b)
         if isinstance(op, ast.NotEq):
@@ -704,7 +712,7 @@ class Interp:
         if isinstance(ty, TDict):
             return z3.Select(sym.dict_dom(cont), sym.coerce(item, ty.k).t)
         if isinstance(ty, TSet):
-            return z3.Select(cont.t, sym.coerce(item, ty.k).t)
+            return z3.Select(cont.t, self.set_key(ty, item))
         if isinstance(ty, TList):
             k = self.ctx.fresh_const(z3.IntSort(), "k")
             it = sym.coerce(item, ty.elem)
@@ -715,6 +723,29 @@ class Interp:
             k = self.ctx.fresh_const(z3.IntSort(), "k")
             return z3.Exists([k], z3.And(0 <= k, k < sym.bytes_len(cont), z3.Select(sym.bytes_data(cont), k) == sym.as_int(item)))
         raise Unsupported("`in` on %s" % ty)
+
+    def note_bytes_literal(self, a, b):
+        """a byte string is compared with a literal L: give the solver the instance of the bkey axiom for L in
+        quantifier-free form (for all x: x == L  <=>  bkey(x) == bkey(L)); a consequence of sym.bkey_axiom, so it adds
+        no assumption.  Handed to the solver only on paths where set[bytes] values occur (Ctx.oblige)."""
+        for x in (a, b):
+            if isinstance(x, V) and x.ty == TBytes:
+                lit = sym.bytes_literal(x)
+                if lit is not None and len(lit) <= 64:
+                    name = "bkey-lit:" + lit.hex()
+                    if name not in self.ctx.bkey_lemmas:
+                        v = z3.Const("bk_x", sym.sort_of(TBytes))
+                        self.ctx.bkey_lemmas[name] = z3.ForAll([v], sym.bytes_eq(V(TBytes, v), x) == (sym.bkey(v) == sym.bkey(x.t)), patterns=[sym.bkey(v)])
+
+    def set_key(self, ty, item):
+        """index of `item` in the characteristic array of a set of type `ty`.  Elements of set[bytes] are identified by
+        sym.bkey (value identity of the byte string); its axiom is handed to the solver on every path that uses it."""
+        if ty.k == TBytes:
+            if isinstance(item.ty, TOpt):
+                raise Unsupported("Optional[bytes] as set element")
+            self.ctx.axioms.setdefault("bkey", sym.bkey_axiom())
+            return sym.bkey(sym.coerce(item, TBytes).t)
+        return sym.coerce(item, ty.k).t
 
     # ---- subscripts
     def e_Subscript(self, node, env):
@@ -812,6 +843,10 @@ class Interp:
 
     def slice_of(self, base: V, sl, env, node=None) -> V:
         ty = base.ty
+        if isinstance(ty, TOpt):
+            self.fail(z3.Not(sym.opt_is_none(base)), "TypeError", "slice of None", node)
+            base = sym.opt_val(base)
+            ty = base.ty
         if ty == TBytes:
             n = sym.bytes_len(base)
             lo, hi = self.slice_bounds(sl, n, env)
